@@ -126,3 +126,31 @@ package annotation
 //@   invariant loop 3: -1 <= i && i < len(toDel) && len(tagElems) == n0 - (len(toDel) - 1 - i) && incrB(toDel, n0) && len(toDel) <= n0
 //@   assert at "tagElems[d] = tagElems[len(tagElems)-1]": 0 <= d && d < len(tagElems)
 //@   assert at "tagElems[len(tagElems)-1] = ElementNR{}": len(tagElems) >= 1
+
+// ---- element edits are read-modify-writes of a block's element list (C11) ----
+// The instance lock that should cover them is commented out in the source ("// d.Lock()"): these
+// assertions FAIL on the current tree and are recorded as open known findings (lost deletions /
+// posts / moves under concurrent edits of one block; witness in /verif/replay/C11).
+//@ func Data.DeleteElement
+//@   prop C11
+//@   requires d != nil
+//@   safety_off
+//@   calls_havoc
+//@   modifies *
+//@   assert at "elems, err := getElements(ctx, tk)": heldw("d.RWMutex")
+
+//@ func Data.MoveElement
+//@   prop C11
+//@   requires d != nil
+//@   safety_off
+//@   calls_havoc
+//@   modifies *
+//@   assert at "fromElems, err := getElements(ctx, fromTk)": heldw("d.RWMutex")
+
+//@ func Data.StoreElements
+//@   prop C11
+//@   requires d != nil
+//@   safety_off
+//@   calls_havoc
+//@   modifies *
+//@   assert at "curBlockE, err := getElements(ctx, tk)": heldw("d.RWMutex")
